@@ -87,7 +87,9 @@ package simplify
 //@   ensures out.ref == ls.ref && out.off == ls.off && 1 <= len(out) && len(out) <= len(ls)
 //@   ensures same(out[0], old(ls[0])) && same(out[len(out)-1], old(ls[len(ls)-1]))
 
+// a line is handed back untouched only when it has at most two vertices (first return)
 //@ func runSimplify(s, ls, area)
+//@   return 1: len(ls) <= 2
 //@   requires s != nil
 //@   ensures len(ls) <= 2 ==> same(result, ls)
 //@   ensures len(ls) > 2 ==> result.ref == ls.ref && result.off == ls.off && 1 <= len(result) && len(result) <= len(ls) && same(result[0], old(ls[0])) && same(result[len(result)-1], old(ls[len(ls)-1]))
